@@ -60,8 +60,31 @@ def special_docs():
             if a != b:
                 res.append(("final_checks_%s_%s" % (a, b), "JSIGHT 0.3\n" + faults[a] + filler + faults[b]))
                 res.append(("final_checks_small_%s_%s" % (a, b), "JSIGHT 0.3\n" + faults[a] + small + faults[b]))
+    # several references to undefined types in one schema / in types that depend on each other
+    res.append(("two_undefined_refs", 'JSIGHT 0.3\nTYPE @a\n{\n  "x": @nope1,\n  "y": @b,\n  "z": @nope2 | @b\n}\nTYPE @b\n{\n  "a": @a // {optional: true}\n}\n'))
+    res.append(("two_undefined_refs_flat", 'JSIGHT 0.3\nTYPE @a\n{\n  "x": @nope1,\n  "z": @nope2\n}\nGET /x\n  200 @a\n'))
+    res.append(("undefined_in_or", 'JSIGHT 0.3\nTYPE @a\n{\n  "z": @nope2 | @nope3\n}\nGET /x\n  200 @a\n'))
     res.append(("or_types", 'JSIGHT 0.3\nTYPE @a\n{\n  "x": @b | @c | @d\n}\nTYPE @b\n1\nTYPE @c\n"s"\nTYPE @d\ntrue\nGET /x\n  200 @a\n'))
     return res
+
+
+def undefined_choice(msgs, text):
+    """input class of finding F-33: every observed diagnostic is 'Type "@x" not found' for a name the
+    document really does not define, and the runs disagree only in WHICH of these names they report"""
+    import re
+    msgs = [m for m in msgs if m]
+    names = set()
+    for m in msgs:
+        mm = re.match(r'^Type "(@[^"]+)" not found$', m)
+        if not mm:
+            return ""
+        names.add(mm.group(1))
+    if len(names) < 2:
+        return ""
+    for nm in names:
+        if re.search(r"^\s*TYPE\s+%s(\s|$)" % re.escape(nm), text, re.M):
+            return ""
+    return "which-of-several-undefined-types"
 
 
 def main(tier):
@@ -122,7 +145,15 @@ def main(tier):
                                                                         rel.describe(other), (other.get("err") or {}).get("index"))
         if bad:
             msg = (a.get("err") or {}).get("msg", "")
-            sig = {"kind": kind, "msg": msg[:60], "what": bad.split(":")[0]}
+            sig = {"kind": kind, "msg": msg[:60], "what": bad.split(":")[0], "detail": ""}
+            # input class: which of several undefined type names is reported
+            others = [(x.get("err") or {}).get("msg", "") for x in (b, c)]
+            if a.get("rep_diff"):
+                try:
+                    others.append((json.loads(a["rep_diff"]).get("err") or {}).get("msg", ""))
+                except ValueError:
+                    pass
+            sig["detail"] = undefined_choice([msg] + others, t)
             chk.violation("%s | document (%s):\n%s" % (bad, kind, t[:900]),
                           {"kind": "determinism", "doc_kind": kind, "file": t, "observed": a, "signature": sig}, sig)
     for g in groups:
@@ -133,7 +164,11 @@ def main(tier):
             what = "concurrent run differs"
             if dd.get("solo") == "ok" and dd.get("concurrent") == "ok" and rel.strip_examples(dd["solo_json"]) == rel.strip_examples(dd["conc_json"]):
                 what = "example-only"
-            sig = {"kind": "concurrent", "msg": ((dd.get("solo_err") or {}).get("msg") or "")[:60], "what": what}
+            sig = {"kind": "concurrent", "msg": ((dd.get("solo_err") or {}).get("msg") or "")[:60], "what": what, "detail": ""}
+            cidx = dd.get("case", "")
+            if cidx.startswith("d") and cidx[1:].isdigit() and int(cidx[1:]) < len(texts):
+                sig["detail"] = undefined_choice([(dd.get("solo_err") or {}).get("msg") or "", (dd.get("conc_err") or {}).get("msg") or ""],
+                                                 texts[int(cidx[1:])][1])
             dd.pop("solo_json", None)
             dd.pop("conc_json", None)
             chk.violation("result while other projects are processed concurrently differs from the solo result (%s): %s" % (what, json.dumps(dd)[:500]),
